@@ -38,7 +38,9 @@ _BASE = {}
 # user code supplied for the Fortran wrapper in every run: code in front of the module and the body of a function that is
 # generated after a struct (both disappear silently if a splicer scope is mishandled under one of the options)
 USER_SPLICERS = {
-    "geom": {"f": {"file_top": ["#define GEOM_USER_CODE 7"]}},
+    "geom": {"f": {"file_top": ["#define GEOM_USER_CODE 7"]},
+             # a body for a function inside a namespace (the C wrapper of shapes::count)
+             "c": {"namespace": {"shapes": {"function": {"count": ["return 4242;"]}}}}},
     "clib": {"f": {"file_top": ["#define CLIB_USER_CODE 7"], "function": {"norm": ["SHT_rv = 42"]}}},
     "nest": {"f": {"file_top": ["#define NEST_USER_CODE 7"]}},
 }
